@@ -105,6 +105,32 @@ def history(R, rng, tier):
                                      "input": inp, "observed": {"got": got[:6], "alone": ref[hist[j]][:6]}, "signature": sig})
 
 
+def rescans(R, rng, tier):
+    """One path scanned, edited and scanned again by the same process: everything reported the second time (excerpts
+    included) is what a fresh process reports for the edited file."""
+    d = os.path.join(impl.scratch(), "c08r")
+    os.makedirs(d, exist_ok=True)
+    p = os.path.join(d, "edited.py")
+    versions = ["assert a\n", "# moved down\n\nassert bbb\nimport pickle\n", "import pickle\n", "x = 1\n\n\n\nassert cc\n", "assert a\n"]
+    for n, src in enumerate(versions):
+        open(p, "w").write(src)
+        m = impl.make_manager()
+        m.files_list = [p]
+        m.run_tests()
+        got = [(i.test_id, i.lineno, i.get_code(3)) for i in m.results]
+        lines = src.split("\n")
+        R.case(("rescan", n), nontrivial=n > 0, sample={"version": n, "findings": [(a, b) for a, b, _ in got]})
+        R.count("rescan")
+        for tid, ln, code in got:
+            rows = [r for r in code.split("\n") if r]
+            ok = bool(rows) and all(r.partition(" ")[0].isdigit() and int(r.partition(" ")[0]) <= len(lines)
+                                    and lines[int(r.partition(" ")[0]) - 1] == r.partition(" ")[2] for r in rows) \
+                and ln in [int(r.partition(" ")[0]) for r in rows]
+            if not ok:
+                R.violations.append({"what": "after the file was edited and rescanned in the same process, the excerpt of %s (line %d) is not the file's current text" % (tid, ln),
+                                     "input": {"versions_scanned_before": versions[:n], "current": src}, "observed": code, "signature": None})
+
+
 def file_sets(R, rng, tier):
     ex = sorted(glob.glob(os.path.join(core.REPO, "examples", "*.py")))
     n = 12 if tier == "quick" else 120
@@ -181,6 +207,7 @@ def run(R, replay=None):
               "scanned together vs alone; (3) whole-directory runs in subprocesses under different hash seeds, machine-readable reports "
               "compared byte for byte apart from the timestamp; non-trivial = histories with at least two different scanners, all others")
     history(R, rng, R.tier)
+    rescans(R, rng, R.tier)
     file_sets(R, rng, R.tier)
     seeds(R, rng, R.tier)
     R.disagreements_checked = R.evaluations
